@@ -36,6 +36,7 @@ func checkC20(ctx *Ctx, r *Report) {
 	c20UnionsNonEmptyInSchemas(ctx, r)
 	c20ThirdHunt(ctx, r)
 	c20FourthHunt(ctx, r)
+	c20UnionSingleMember(ctx, r)
 }
 
 // ---------------------------------------------------------------------------
